@@ -58,6 +58,7 @@ func structured(o *vh.Obs, step string, err error) {
 		o.Failf("error:undocumented-key@"+step, "%s returned error key %q", step, ge.Key())
 		return
 	}
+	_ = ge.Error() // rendering the message must not panic either
 	data, merr := json.Marshal(ge)
 	if merr != nil || !json.Valid(data) {
 		o.Failf("error:not-serialisable@"+step, "%s: error does not serialise to JSON: %v %s", step, merr, data)
@@ -215,7 +216,7 @@ var hostileValues = []string{
 	`null`, `""`, `" "`, `0`, `-1`, `1e999`, `123456789012345678901234567890`, `0.0000000000000000000000001`, `true`, `[]`, `{}`, `[null]`, `[[]]`, `{"":null}`,
 	`"ZZZ"`, `"XX"`, `"FJ"`, `"xx-unknown-v1"`, `"https://gobl.org/draft-0/bill/nonexistent"`, `"https://gobl.org/draft-0/bill/invoice"`, `"9999-99-99"`, `"0000-00-00"`,
 	`"0.0000000000000000000000000000000000000000000000000000000000000000001"`, `"1.0000000000000000000%"`, `"-"`, `"%"`, `"100%"`, `"-100%"`, `"-100.0%"`, `"-1"`, `"-0"`, `"1.5.2"`, `"99999999999999999999"`, `"00000000-0000-0000-0000-000000000000"`, `"not-a-uuid"`, `[""]`, `[null,null]`,
-	`"\u0000"`, `"😀"`, `"é A-1"`, `{"a":{"a":{"a":{"a":{"a":{"a":{"a":{"a":{"a":{"a":{"a":{"a":{"a":{"a":{"a":{"a":1}}}}}}}}}}}}}}}}`,
+	`"\u0000"`, `"😀"`, `"é A-1"`, templateText, `"{{"`, `"{{.max}}{{.min}}{{template \"x\"}}"`, `"%!s(MISSING)%d%v%n"`, `"AAAAAAAAAAAAAAAAAAAAAAAAAAAAAAAAAAAAAAAAAAAAAAAAAAAAAAAAAAAAAAAAAAAAAAAAAAAAAAAAAAAAAAAAAAAAAAAAAAAAAAAAAAAAAAAAAAAAAAAAAAAAAAAAAAAAAAAA"`, `{"a":{"a":{"a":{"a":{"a":{"a":{"a":{"a":{"a":{"a":{"a":{"a":{"a":{"a":{"a":{"a":1}}}}}}}}}}}}}}}}`,
 	`[[[[[[[[[[[[[[[[[[[[[[[[[[[[[[[[1]]]]]]]]]]]]]]]]]]]]]]]]]]]]]]]]`,
 }
 
@@ -679,12 +680,14 @@ var fuzzParse, fuzzBulk func(t *testing.T, c BytesCase)
 
 func init() {
 	vh.Describe(
-		"(1) every single edit (quick tier: of a tenth of the nodes, rotating with the seed) (delete; set to null / [null] / \"\" / {}; insert a null element; duplicate the first element) of every node of every example document and of its calculated envelope, exhaustively; (2) rapid: 1-3 random edits drawn from a hostile value list (nulls, retyped values, unknown currency / country / regime / addon / schema ids, empty and huge numbers, empty and null signatures, deep nesting, duplicated elements); (3) fixed hostile texts and truncated examples; (3b) generated documents (internal/docgen) with legal but degenerate numbers: -100% / 0% / huge percentages also as tax rates, with and without included taxes, and generated payments of 1-4 lines whose documents carry tax summaries sharing categories and percentages but differing in surcharges and extensions; (4) thorough: native fuzzing of the parser pipeline and of the bulk request stream. Every input goes through Parse, Envelop, Calculate, Validate, Digest, Verify, Sign, Correct (7 option variants), Replicate, Invert, RemoveIncludedTaxes, Marshal and through bulk build / validate / correct / replicate / verify requests. Oracle: no panic (signature = first gobl frame), no hang (20 s watchdog), every envelope-API error is a *gobl.Error with a documented key that serialises to JSON, every bulk request is answered and the stream ends with one final marker. Non-trivial: the input parses (reaches logic beyond unmarshalling).",
+		"(1) every single edit (quick tier: of a tenth of the nodes, rotating with the seed) (delete; set to null / [null] / \"\" / {}; insert a null element; duplicate the first element) of every node of every example document and of its calculated envelope, exhaustively; (2) rapid: 1-3 random edits drawn from a hostile value list (nulls, retyped values, unknown currency / country / regime / addon / schema ids, empty and huge numbers, empty and null signatures, deep nesting, duplicated elements); (2b) schema-driven: for every published schema type a minimal document (and the first example of that type) in which each declared path of up to 3 member names (thorough: 5) ends in null / {} / [] / \"\" / 0 / [null] / a malformed template-and-format text, and every member a schema declares and an example (source and calculated envelope) does not carry, added in place with values of the right and of the wrong type (quick tier: a rotating twentieth); (3) fixed hostile texts and truncated examples; (3b) generated documents (internal/docgen) with legal but degenerate numbers: -100% / 0% / huge percentages also as tax rates, with and without included taxes, and generated payments of 1-4 lines whose documents carry tax summaries sharing categories and percentages but differing in surcharges and extensions; (4) thorough: native fuzzing of the parser pipeline and of the bulk request stream. Every input goes through Parse, Envelop, Calculate, Validate, Digest, Verify, Sign, Correct (7 option variants), Replicate, Invert, RemoveIncludedTaxes, Marshal and through bulk build / validate / correct / replicate / verify requests. Oracle: no panic (signature = first gobl frame), no hang (20 s watchdog), every envelope-API error is a *gobl.Error with a documented key that serialises to JSON, every bulk request is answered and the stream ends with one final marker. Non-trivial: the input parses (reaches logic beyond unmarshalling).",
 		"a watchdog expiry is reported as a hang only through the replay file (replay must reproduce it)",
 	)
 	vh.Enum("seeds", enumSeeds, judgeBytes)
 	vh.Enum("single_edits", enumSingleEdits, judgeMutant)
 	vh.Rapid("mutants", 8_000, 1_200_000, genMutCase, judgeMutant)
+	vh.Enum("schema_skeletons", enumSkeletons, judgeSkeleton)
+	vh.Enum("absent_members", enumAbsent, judgeAbsent)
 	vh.Rapid("generated_hostile", 4_000, 400_000, func(t *rapid.T) docgen.Plan {
 		return docgen.GenPlan(t, docgen.Opts{Hostile: true, MaxLines: 4})
 	}, func(p docgen.Plan, o *vh.Obs) {
